@@ -92,6 +92,12 @@ class Ash(linux_shell.LinuxShell):
             self.ch.sendline("PS2=''")
             self.ch.read_until_prompt()
 
+            # Make the tty echo control characters as they are instead of in
+            # caret notation (`^A`).  The read-back of a sent command expects
+            # one byte of echo per control character.
+            self.ch.sendline("stty -echoctl")
+            self.ch.read_until_prompt()
+
             # Do a sanity check to assert that shell interaction is working
             # exactly as expected
             util.shell_sanity_check(self)
